@@ -252,3 +252,133 @@ func verifClientSock() *clientSocket {
 	}
 }
 
+
+// ---- frame-preserving codec stand-in for pipeline harnesses (JSON / reflect are C09's subject, outside C01's kernel) ----
+
+// verifPipeParser encodes an event as a header frame "2<nsp>,<event>#<k>" (or "5..." when k > 0) followed by the k
+// []byte arguments as attachment frames, and reassembles it; the decode closure hands the attachments back, in order,
+// for the handler's []byte parameters.
+type verifPipeParser struct {
+	pending *parser.PacketHeader
+	event   string
+	left    int
+	att     [][]byte
+}
+
+func (p *verifPipeParser) Encode(h *parser.PacketHeader, v any) ([][]byte, error) {
+	args, _ := v.(*[]any)
+	event := ""
+	var att [][]byte
+	if args != nil {
+		for i, a := range *args {
+			if i == 0 {
+				event, _ = a.(string)
+				continue
+			}
+			if b, ok := a.([]byte); ok {
+				att = append(att, b)
+			}
+		}
+	}
+	typ := h.Type
+	if len(att) > 0 && typ == parser.PacketTypeEvent {
+		typ = parser.PacketTypeBinaryEvent
+	}
+	head := append([]byte{'0' + byte(typ)}, h.Namespace...)
+	head = append(head, ',')
+	head = append(head, event...)
+	head = append(head, '#', byte('0'+len(att)))
+	return append([][]byte{head}, att...), nil
+}
+
+func (p *verifPipeParser) Add(data []byte, finish parser.Finish) error {
+	done := func() {
+		h, ev, att := p.pending, p.event, p.att
+		p.pending, p.att = nil, nil
+		finish(h, ev, func(types ...reflect.Type) ([]reflect.Value, error) {
+			out := make([]reflect.Value, len(types))
+			for i := range types {
+				var b []byte
+				if i < len(att) {
+					b = att[i]
+				}
+				out[i] = reflect.ValueOf(&b)
+			}
+			return out, nil
+		})
+	}
+	if p.pending != nil {
+		p.att = append(p.att, data)
+		p.left--
+		if p.left == 0 {
+			done()
+		}
+		return nil
+	}
+	if len(data) < 4 {
+		return errVerifFrame
+	}
+	h := &parser.PacketHeader{Type: parser.PacketType(data[0] - '0')}
+	i := 1
+	for i < len(data) && data[i] != ',' {
+		i++
+	}
+	if i >= len(data) {
+		return errVerifFrame
+	}
+	h.Namespace = string(data[1:i])
+	rest := data[i+1:]
+	j := 0
+	for j < len(rest) && rest[j] != '#' {
+		j++
+	}
+	if j+1 >= len(rest) {
+		return errVerifFrame
+	}
+	p.pending, p.event, p.left = h, string(rest[:j]), int(rest[j+1]-'0')
+	if p.left == 0 {
+		done()
+	}
+	return nil
+}
+func (p *verifPipeParser) Reset() { p.pending, p.att = nil, nil }
+
+// verifClientWorld builds a Manager with one connected client socket per namespace, by struct literals.
+func verifClientWorld(p parser.Parser, nsps ...string) (*Manager, map[string]*clientSocket) {
+	m := &Manager{
+		eioPacketQueue: newPacketQueue(),
+		parser:         p,
+		sockets:        newClientSocketStore(),
+		debug:          newNoopDebugger(),
+		state:          clientConnStateConnected,
+		noReconnection: true,
+		skipReconnect:  true,
+		backoff:        newBackoff(DefaultReconnectionDelay, DefaultReconnectionDelayMax, 0),
+
+		openHandlers:             newHandlerStore[*ManagerOpenFunc](),
+		pingHandlers:             newHandlerStore[*ManagerPingFunc](),
+		errorHandlers:            newHandlerStore[*ManagerErrorFunc](),
+		closeHandlers:            newHandlerStore[*ManagerCloseFunc](),
+		reconnectHandlers:        newHandlerStore[*ManagerReconnectFunc](),
+		reconnectAttemptHandlers: newHandlerStore[*ManagerReconnectAttemptFunc](),
+		reconnectErrorHandlers:   newHandlerStore[*ManagerReconnectErrorFunc](),
+		reconnectFailedHandlers:  newHandlerStore[*ManagerReconnectFailedFunc](),
+	}
+	out := map[string]*clientSocket{}
+	for _, n := range nsps {
+		s := &clientSocket{
+			state:         clientSocketConnStateConnected,
+			config:        &ClientSocketConfig{},
+			namespace:     n,
+			manager:       m,
+			parser:        p,
+			acks:          make(map[uint64]*ackHandler),
+			eventHandlers: newEventHandlerStore(),
+			debug:         newNoopDebugger(),
+		}
+		s.sendBuffers = s._sendBuffers
+		m.sockets.set(s)
+		out[n] = s
+	}
+	return m, out
+}
